@@ -667,6 +667,7 @@ def round_trip(root: Element, g: dict, enc: dict, uni: str, tb: Table, src: str)
     file: dict = {'err': '-'}
     walk = ''
     parse = '-'
+    restable = True
     out: object = 0
     if exp == 'ok':
         try:
@@ -681,12 +682,22 @@ def round_trip(root: Element, g: dict, enc: dict, uni: str, tb: Table, src: str)
             parsed, _, _ = Element.parse(io.BytesIO(data), unicode=(uni == 'silent'))
             parse = 'ok'
             out = proj_graph(parsed, tb)
+            # exporting what was parsed must give the same file again
+            try:
+                buf2 = io.BytesIO()
+                if enc['kind'] == 'bin':
+                    parsed.export_binary(buf2, version=enc['ver'], unicode=uni)
+                else:
+                    parsed.export_kv2(buf2, flat=enc['flat'], cull_uuid=enc['cull'], unicode=uni)
+                restable = buf2.getvalue() == data
+            except Exception:  # noqa: BLE001
+                restable = False
         except Exception as exc:  # noqa: BLE001
             parse = type(exc).__name__
     sig = {'kind': enc['kind'], 'action': 'rt', 'ver': enc['ver'], 'flat': enc['flat'], 'cull': enc['cull'],
            'uni': uni, 'src': src, 'exp': exp, 'parse': parse, 'walk': walk}
     sig.update(features(g, enc, tb))
-    return {'k': 'rt', 'g': g, 'na': tb.nonascii(), 'enc': enc, 'uni': uni, 'exp': exp, 'parse': parse,
+    return {'k': 'rt', 'restable': restable, 'g': g, 'na': tb.nonascii(), 'enc': enc, 'uni': uni, 'exp': exp, 'parse': parse,
             'file': file, 'out': out, 'sig': sig}
 
 
